@@ -65,7 +65,9 @@ def cases(draw, sound, small=False):
         c["noise"] = draw(st.sampled_from([1e-4, 5e-4, 2e-3, 5e-3]))
         c["delete"] = draw(st.sampled_from([0.0, 0.2, 0.5]))
         c["spurious"] = draw(st.sampled_from([0.0, 0.3, 1.0]))
-        c["minpks"] = draw(st.sampled_from([5, 10, 20, "half"]))
+        # "near": just below what a grain has, so that with noise of the size of the tolerance a fit can gain or lose
+        # the deciding peaks
+        c["minpks"] = draw(st.sampled_from([5, 10, 20, "half", "near", "near"]))
         c["uniqueness"] = draw(st.sampled_from([0.3, 0.5, 0.8]))
     else:
         c["driver"] = draw(st.sampled_from(["score_all_pairs", "score_all_pairs", "index", "do_index"]))
@@ -255,7 +257,7 @@ def check(case, rec=None):
     tol = case["hkl_tol"]
     nref = len(hk)
     if case["sound"]:
-        minpks = case["minpks"] if case["minpks"] != "half" else int(0.5 * nref)
+        minpks = {"half": int(0.5 * nref), "near": int(0.85 * nref)}.get(case["minpks"], case["minpks"])
     else:
         minpks = int(case["frac"] * nref)
     fails = []
